@@ -400,7 +400,19 @@ class Exporter:
                 ow = self.loop_source_owner(a)
                 if ow[0]:
                     ao[i + 1] = ow
+        # an argument that is a literal array of values (`&[t.template_id, t.field_count]`): a loop over it in the
+        # helper is unrolled over the listed elements
+        arrtokens = {}
+        for i, a in enumerate(argexprs):
+            if a is None or isinstance(a, list):
+                continue
+            pa = peel(a)
+            if pa[0] == "array" and pa[1]:
+                tok = "\u27e6arr%d\u27e7" % (i + 1)
+                ap[i + 1] = tok
+                arrtokens[tok] = [(self.path_of(x), self.owner_of(x)) for x in pa[1]]
         sub = Exporter(self.prog, self.an, cb, ap, self.depth + 1, ao)
+        sub.arrtokens = arrtokens
         gens = cb.j.get("generics") or []
         if callee is not None and gens and callee.args and len(gens) == len(callee.args):
             sub.tmap = {g: self.tmap.get(a, a) for g, a in zip(gens, callee.args)}
@@ -477,6 +489,24 @@ class Exporter:
     def _inline_items(self, sub, buf):
         evs = sub.events(buf)
         items = sub.flat(evs)
+        for tok, elems in (getattr(sub, "arrtokens", None) or {}).items():
+            out = []
+            for (lp, cd, cc) in items:
+                hit = [x for x in lp if isinstance(x, str) and x.startswith(tok)]
+                if not hit:
+                    out.append((lp, cd, cc))
+                    continue
+                lp2 = tuple(x for x in lp if x not in hit)
+                if cc[0] == "atom" and isinstance(cc[1], str) and cc[1].startswith(tok):
+                    for (pth, own) in elems:
+                        out.append((lp2, cd, (cc[0], pth) + tuple(cc[2:4]) + (own,)))
+                else:
+                    out.append((lp, cd, ("unknown", "loop over a literal array with a body that is not a single per-element emission")))
+            # the per-element emissions must stay grouped per element: only valid when the loop emits one item
+            n_in_loop = len([1 for (lp, cd, cc) in items if any(isinstance(x, str) and x.startswith(tok) for x in lp)])
+            if n_in_loop > 1:
+                out = [(lp, cd, ("unknown", "loop over a literal array emits several items per element")) if any(isinstance(x, str) and x.startswith(tok) for x in lp) else (lp, cd, cc) for (lp, cd, cc) in items]
+            items = out
         self._loop_owner = getattr(self, "_loop_owner", {})
         self._loop_owner.update(getattr(sub, "_loop_owner", {}))
         return items
